@@ -28,6 +28,7 @@ import (
 
 const (
 	lifetime    = 4 * time.Second        // no InterestLifetime element: the forwarder assumes 4 s
+	lifeShort   = 500 * time.Millisecond // the other lifetime of the alphabet (nested names expire at different times)
 	suppression = 500 * time.Millisecond // BestRouteSuppressionTime == MulticastSuppressionTime
 	missingFace = uint64(99)
 	hintOut     = "/a/b/h"     // delegation outside the producer region (LPM: /a/b, /a, /)
@@ -47,6 +48,14 @@ type iOp struct {
 	hl    int    // -1 absent
 	hint  string // "" | in | out
 	nh    string // "" | N2 | self | missing
+	short bool   // InterestLifetime 500 ms instead of the 4 s default
+}
+
+func (o iOp) life() time.Duration {
+	if o.short {
+		return lifeShort
+	}
+	return lifetime
 }
 
 type dOp struct {
@@ -87,6 +96,9 @@ func (o iOp) label() string {
 	}
 	if o.nh != "" {
 		s += ",nh=" + o.nh
+	}
+	if o.short {
+		s += ",short"
 	}
 	return s + ")"
 }
@@ -144,6 +156,10 @@ var slices = map[string]slice{
 		iops: prod([]uint64{fwsim.L1, fwsim.N3, fwsim.N4}, []string{"/a", "/a/b"}, func(f uint64, n string) []iOp {
 			if n == "/a/b" && f == fwsim.N4 {
 				return []iOp{{face: f, name: n, nonce: "fresh", hl: -1}}
+			}
+			if n == "/a/b" && f == fwsim.L1 {
+				// nested names pending with different expiry: the longer one goes first
+				return []iOp{{face: f, name: n, nonce: "fresh", hl: -1}, {face: f, name: n, nonce: "dup", hl: -1}, {face: f, name: n, nonce: "fresh", hl: -1, short: true}}
 			}
 			return []iOp{{face: f, name: n, nonce: "fresh", hl: -1}, {face: f, name: n, nonce: "dup", hl: -1}, {face: f, name: n, nonce: "none", hl: -1}}
 		}),
@@ -328,7 +344,7 @@ func build(cfgName string) explore.System {
 	// simplest first: plain fresh Interests, Data, clock, FIB changes, then the richer Interests
 	for pass := 0; pass < 2; pass++ {
 		for _, o := range slc.iops {
-			plain := o.nonce == "fresh" && o.hl < 0 && o.hint == "" && o.nh == ""
+			plain := o.nonce == "fresh" && o.hl < 0 && o.hint == "" && o.nh == "" && !o.short
 			if plain != (pass == 0) {
 				continue
 			}
@@ -447,6 +463,9 @@ func (s *sys) step(in *inst, op explore.Op) (v []report.Violation) {
 	case d.i != nil:
 		o := d.i
 		is := fwsim.InterestSpec{Name: o.name}
+		if o.short {
+			is.Lifetime = fwsim.Dur(lifeShort)
+		}
 		var nonce uint32
 		hasNonce := true
 		switch o.nonce {
@@ -497,7 +516,7 @@ func (s *sys) step(in *inst, op explore.Op) (v []report.Violation) {
 		in.refresh()
 		v = r.noInterest(sends, "the periodic reaper")
 	}
-	r.sync(in)
+	r.sync(in, d.d != nil)
 	return v
 }
 
